@@ -450,6 +450,86 @@ def rule_line_unit(ctx, rep, rule_id="R-LINE-UNIT"):
                   "form feeds or Unicode line separators" if bad else "")
 
 
+NEWLINEISH = {10, 11, 12, 13, 0x1C, 0x1D, 0x1E, 0x85, 0x2028, 0x2029}
+
+
+def regex_line_terminators(pattern: str) -> list[tuple[int, ...]]:
+    """The runs of newline-like literals a regular expression can match as a unit (`\\r\\n`, `\\n`, `\\r`, a class `[\\r\\n]` member ...), read
+    off the regex syntax tree (re._parser); negated classes are not terminators."""
+    import re._parser as rp  # regex *syntax tree* of a literal of the analysed source; nothing of the repository is executed
+    from re._constants import BRANCH, IN, LITERAL, MAX_REPEAT, MIN_REPEAT, NEGATE, SUBPATTERN
+
+    out: list[tuple[int, ...]] = []
+
+    def lit(op, av):
+        if op is LITERAL and av in NEWLINEISH:
+            return av
+        if op in (MAX_REPEAT, MIN_REPEAT) and len(av[2]) == 1 and av[2][0][0] is LITERAL and av[2][0][1] in NEWLINEISH:
+            return av[2][0][1]
+        return None
+
+    def seq(items):
+        run: list[int] = []
+        for op, av in items:
+            c = lit(op, av)
+            if c is not None:
+                run.append(c)
+                continue
+            if run:
+                out.append(tuple(run))
+                run = []
+            if op is IN:
+                if not any(o is NEGATE for o, _ in av):
+                    for o, a in av:
+                        if o is LITERAL and a in NEWLINEISH:
+                            out.append((a,))
+            elif op is BRANCH:
+                for alt in av[1]:
+                    seq(list(alt))
+            elif op is SUBPATTERN:
+                seq(list(av[3]))
+            elif op in (MAX_REPEAT, MIN_REPEAT):
+                seq(list(av[2]))
+        if run:
+            out.append(tuple(run))
+
+    seq(list(rp.parse(pattern)))
+    return out
+
+
+def rule_line_terminator(ctx, rep, rule_id="R-LINE-UNIT"):
+    """second clause of R-LINE-UNIT: a regular expression used to cut text into diff lines ends a line at a line feed only"""
+    mod = ctx.prog.module("codemodder.diff")
+    n = 0
+    SPLITTERS = ("findall", "finditer", "split")
+    compiled_used_to_split = set()
+    for c in ast.walk(mod.tree):
+        if isinstance(c, ast.Call) and isinstance(c.func, ast.Attribute) and c.func.attr in SPLITTERS and isinstance(c.func.value, ast.Name) and c.func.value.id != "re":
+            compiled_used_to_split.add(c.func.value.id)
+    compiled_names = {}
+    for st in ast.walk(mod.tree):
+        if isinstance(st, ast.Assign) and isinstance(st.value, ast.Call) and unparse(st.value.func) == "re.compile":
+            for t in st.targets:
+                if isinstance(t, ast.Name):
+                    compiled_names[id(st.value)] = t.id
+    for c in ast.walk(mod.tree):
+        if isinstance(c, ast.Call) and isinstance(c.func, ast.Attribute) and isinstance(c.func.value, ast.Name) and c.func.value.id == "re" and c.args \
+                and isinstance(c.args[0], ast.Constant) and isinstance(c.args[0].value, str):
+            # only expressions that cut text into pieces (split / findall / finditer, directly or through a compiled pattern)
+            if not (c.func.attr in SPLITTERS or (c.func.attr == "compile" and compiled_names.get(id(c)) in compiled_used_to_split)):
+                continue
+            n += 1
+            try:
+                terms = regex_line_terminators(c.args[0].value)
+            except Exception as e:
+                raise AnalysisError(f"codemodder.diff: regular expression {c.args[0].value!r} not parsed: {e}")
+            bad = [t for t in terms if t[-1] != 10]
+            rep.check(rule_id, "codemodder.diff", f"src/codemodder/diff.py:{c.lineno}", not bad, f"regex:{c.args[0].value[:30]}",
+                      f"the pattern {c.args[0].value!r} lets a line end at {[''.join(f'\\x{x:02x}' for x in t) for t in bad]} (not a line feed): difflib then gets "
+                      "'lines' without a final LF, the hunk arithmetic counts them as lines of the file and the reported diff no longer applies")
+    rep.instance(rule_id, "codemodder.diff", "src/codemodder/diff.py:1", True, detail=f"{n} regular expressions in the diff module examined")
+
+
 def check(ctx, rep):
     rep.explanation = (
         "The 3 transformer pipelines' apply() and the 4 manifest writers' add_to_file() are enumerated from the class "
@@ -463,10 +543,15 @@ def check(ctx, rep):
     rule_no_content_cache(ctx, rep)
     rule_codec_agree(ctx, rep)
     rule_line_unit(ctx, rep)
+    rule_line_terminator(ctx, rep)
     from .c17 import rule_exec_order
 
     rule_exec_order(ctx, rep)
     rule_strict_decode(ctx, rep)
+    from .c10 import rule_accumulate_all
+
+    # a changeset that is produced but never reaches the run-wide record is an on-disk change without a reported diff
+    rule_accumulate_all(ctx, rep)
     rep.not_covered += [
         "byte-level applicability of difflib output (BOM, encodings, final newline arithmetic)",
         "lossless round-trip of libcst parse/emit (trusted)",
